@@ -301,3 +301,155 @@ fn c16_canary() {
     let b: u8 = kani::any();
     assert!(AsciiEscape::escaped_char_len(b) != 4);
 }
+
+// ---------------------------------------------------------------------------------------------
+// Whole-string obligations (bounded): the layout loop and the writers, tied together.
+
+/// "<c1><c2>" (n <= 2 symbolic chars) as a str over a caller-provided buffer.
+fn two_chars(c1: char, c2: char, n: usize, buf: &mut [u8; 8]) -> &str {
+    let mut off = 0;
+    if n >= 1 {
+        off += c1.encode_utf8(&mut buf[0..4]).len();
+    }
+    if n >= 2 {
+        let l1 = off;
+        off += c2.encode_utf8(&mut buf[l1..l1 + 4]).len();
+    }
+    unsafe { std::str::from_utf8_unchecked(&buf[..off]) }
+}
+
+/// Sink that only counts bytes and remembers the first and last one.
+struct CountBuf {
+    n: usize,
+    first: u8,
+    last: u8,
+}
+impl std::fmt::Write for CountBuf {
+    fn write_str(&mut self, s: &str) -> std::fmt::Result {
+        let b = s.as_bytes();
+        if !b.is_empty() {
+            if self.n == 0 {
+                self.first = b[0];
+            }
+            self.last = b[b.len() - 1];
+        }
+        self.n += b.len();
+        Ok(())
+    }
+}
+
+// @ob id=C16.k.unicode_layout_sum props=C16,C03 kind=bounded tier=quick timeout=900
+// @bound strings of at most 2 characters (each any Unicode scalar value), both preferred quotes, every printable classification
+// @clause the length announced by the precomputed layout: for a text value it is the sum of the per-character increments plus one backslash per occurrence of the chosen quote, and the quote is Python's choice (single unless the value contains a single and no double quote) - the layout loop over chars(), which the Verus unit cannot reach
+// @fns UnicodeEscape::repr_layout UnicodeEscape::output_layout_with_checker UnicodeEscape::escaped_char_len choose_quote
+#[kani::proof]
+#[kani::unwind(6)]
+#[kani::stub(crate::char::is_printable, is_printable_stub)]
+fn c16_unicode_layout_sum() {
+    let c1: char = kani::any();
+    let c2: char = kani::any();
+    let n: usize = kani::any();
+    kani::assume(n <= 2);
+    unsafe {
+        PRINTABLE = kani::any();
+    }
+    let mut buf = [0u8; 8];
+    let s = two_chars(c1, c2, n, &mut buf);
+    let pref = any_quote();
+    let layout = UnicodeEscape::repr_layout(s, pref);
+    let cs = [c1, c2];
+    let mut singles = 0;
+    let mut doubles = 0;
+    let mut sum = 0;
+    for i in 0..2 {
+        if i < n {
+            if cs[i] == '\'' {
+                singles += 1;
+                sum += 1;
+            } else if cs[i] == '"' {
+                doubles += 1;
+                sum += 1;
+            } else {
+                sum += UnicodeEscape::escaped_char_len(cs[i]);
+            }
+        }
+    }
+    let expect_quote = match pref {
+        Quote::Single => if singles > 0 && doubles == 0 { Quote::Double } else { Quote::Single },
+        Quote::Double => if doubles > 0 && singles == 0 { Quote::Single } else { Quote::Double },
+    };
+    assert!(layout.quote == expect_quote);
+    let escaped = if expect_quote == Quote::Single { singles } else { doubles };
+    assert!(layout.len == Some(sum + escaped));
+    kani::cover!(n == 2 && singles == 1 && doubles == 1);
+    kani::cover!(n == 2 && sum == 20);
+}
+
+// @ob id=C16.k.bytes_repr_length props=C16,C03 kind=bounded tier=quick timeout=900
+// @bound byte strings of at most 2 bytes (all values)
+// @clause its length equals the length announced by the precomputed layout: the bytes repr actually written is b, quote, body, quote with a body of exactly layout.len bytes - whichever of the fast unescaped path and the slow path is taken - and to_string() never fails for these sizes
+// @fns AsciiEscape::new_repr AsciiEscape::repr_layout BytesRepr::write Escape::write_body Escape::changed AsciiEscape::write_source AsciiEscape::write_body_slow
+#[kani::proof]
+#[kani::unwind(6)]
+fn c16_bytes_repr_length() {
+    let data: [u8; 2] = kani::any();
+    let n: usize = kani::any();
+    kani::assume(n <= 2);
+    let esc = AsciiEscape::new_repr(&data[..n]);
+    let announced = esc.layout().len;
+    assert!(announced.is_some());
+    let q = esc.layout().quote.to_byte();
+    let mut w = CountBuf { n: 0, first: 0, last: 0 };
+    esc.bytes_repr().write(&mut w).unwrap();
+    assert!(w.n == announced.unwrap() + 3);
+    assert!(w.first == b'b' && w.last == q);
+    // fast path taken iff nothing needs escaping
+    let plain = |b: u8| b >= 0x20 && b <= 0x7e && b != b'\\' && b != q;
+    let all_plain = (n < 1 || plain(data[0])) && (n < 2 || plain(data[1]));
+    assert!(esc.changed() == !all_plain);
+    kani::cover!(!esc.changed() && n == 2);
+    kani::cover!(announced == Some(8));
+}
+
+// @ob id=C16.k.str_repr_length props=C16,C03 kind=bounded tier=quick timeout=900
+// @bound strings of at most 2 characters (each any Unicode scalar value), every printable classification
+// @clause its length equals the length announced by the precomputed layout: the text repr actually written is quote, body, quote with a body of exactly layout.len bytes, whichever of the fast unescaped path and the slow path is taken; the fast path is taken exactly when no character needs escaping
+// @fns UnicodeEscape::new_repr StrRepr::write Escape::write_body Escape::changed UnicodeEscape::write_source UnicodeEscape::write_body_slow
+#[kani::proof]
+#[kani::unwind(6)]
+#[kani::stub(crate::char::is_printable, is_printable_stub)]
+fn c16_str_repr_length() {
+    let c1: char = kani::any();
+    let c2: char = kani::any();
+    let n: usize = kani::any();
+    kani::assume(n <= 2);
+    let p: bool = kani::any();
+    unsafe {
+        PRINTABLE = p;
+    }
+    let mut buf = [0u8; 8];
+    let s = two_chars(c1, c2, n, &mut buf);
+    let esc = UnicodeEscape::new_repr(s);
+    let announced = esc.layout().len;
+    assert!(announced.is_some());
+    let q = esc.layout().quote;
+    let mut w = CountBuf { n: 0, first: 0, last: 0 };
+    esc.str_repr().write(&mut w).unwrap();
+    assert!(w.n == announced.unwrap() + 2);
+    assert!(w.first == q.to_byte() && w.last == q.to_byte());
+    // unchanged iff every character is written as itself
+    let cs = [c1, c2];
+    let mut all_plain = true;
+    for i in 0..2 {
+        if i < n {
+            let c = cs[i];
+            let plain = c != q.to_char() && c != '\\' && if c.is_ascii() { c >= ' ' && c != '\x7f' } else { p };
+            if !plain {
+                all_plain = false;
+            }
+        }
+    }
+    assert!(esc.changed() == !all_plain);
+    kani::cover!(!esc.changed() && n == 2 && c1.len_utf8() == 3);
+    kani::cover!(esc.changed() && announced == Some(20));
+}
